@@ -330,6 +330,9 @@ func TestC07(t *testing.T) {
 	p = c.rec.NewPart("boundary_inputs", "NUL runs of 1..100 bytes inside names; 4..6-byte comment tokens with IE/XML/IMPORT/ENTITY markers and case-folding code points; structural bytes exactly 255/256/257/512 times; total lengths 255..257 and 65535..65537; CDATA opener case variants; alias runes after names", false, true, "")
 	c.ParRange(p, int64(len(hb)), func(w *Worker, i int64) { judge(w, hb[i]) })
 
+	p = c.rec.NewPart("pass_leak_atoms_exhaustive", "every concatenation of 1..4 (thorough 5) pass-leak atoms (see C13)", false, true, "")
+	c.EnumSeq(p, passLeakAtoms, "", 1, pick(4, 5), judge)
+
 	// decoder: exhaustive over its alphabet
 	Ld := pick(6, 7)
 	p = c.rec.NewPart("decoder_exhaustive", fmt.Sprintf("decoder differential on every string of length 0..%d over %v", Ld, decodeAlpha), false, true, "")
